@@ -453,6 +453,9 @@ fn req_body(c: usize) -> Value {
     json!({ "c": 100 + c })
 }
 fn caller_of(f: &RawFrame) -> Option<usize> {
+    if let Some(q) = std::str::from_utf8(&f.query).ok().and_then(|q| q.strip_prefix("/v/")) {
+        return q.split('/').next()?.parse::<usize>().ok()?.checked_sub(100);
+    }
     let v: Value = serde_json::from_slice(&f.body).ok()?;
     Some((v.get("c")?.as_u64()? as usize).checked_sub(100)?)
 }
@@ -495,6 +498,134 @@ fn req_wire_len(kind: usize) -> usize {
     if kind == 2 { n + 6 } else { n }
 }
 
+
+// ---------------------------------------------------------------------------------------------
+// entry-point variants: every public call entry point of the three clients
+// ---------------------------------------------------------------------------------------------
+/// 0 call_json, 2 call_typed_json, 4 call_typed_beve, 6 call_typed_slice, 8 call_typed_slice_aligned,
+/// 10 call_message, 12 call_with_formats, 14 registry_read, 16 registry_read_typed, 18 registry_write_json,
+/// 19 registry_call_json; odd numbers below 18 are the `_with_timeout` twins.
+const NVARIANTS: usize = 20;
+fn variant_name(v: usize) -> &'static str {
+    ["call_json", "call_json_with_timeout", "call_typed_json", "call_typed_json_with_timeout", "call_typed_beve", "call_typed_beve_with_timeout",
+     "call_typed_slice", "call_typed_slice_with_timeout", "call_typed_slice_aligned", "call_typed_slice_aligned_with_timeout", "call_message",
+     "call_message_with_timeout", "call_with_formats", "call_with_formats_and_timeout", "registry_read", "registry_read_with_timeout",
+     "registry_read_typed", "registry_read_typed_with_timeout", "registry_write_json", "registry_call_json"][v % NVARIANTS]
+}
+/// The WebSocket client has no typed-slice calls.
+fn variant_for(kind: usize, v: usize) -> usize {
+    let v = v % NVARIANTS;
+    if kind == 2 && (6..10).contains(&v) { v - 6 } else { v }
+}
+fn vpath(c: usize, v: usize) -> String {
+    format!("/v/{}/{:02}", 100 + c, v)
+}
+fn variant_of(f: &RawFrame) -> usize {
+    std::str::from_utf8(&f.query).ok().and_then(|q| q.strip_prefix("/v/")).and_then(|q| q.split('/').nth(1)).and_then(|x| x.parse().ok()).unwrap_or(0)
+}
+fn slice_to_value(v: Vec<i64>) -> Result<Value, RepeError> {
+    Ok(json!({ "tag": v.first().copied().unwrap_or(-3), "c": v.get(1).copied().unwrap_or(-3) }))
+}
+fn msg_to_value(m: Message) -> Result<Value, RepeError> {
+    serde_json::from_slice::<Value>(&m.body).map_err(RepeError::from)
+}
+/// Response frame whose body the entry point `v` can decode.
+fn response_v(id: u64, notify: bool, tag: i64, c: i64, v: usize) -> Vec<u8> {
+    let q = odd_query(tag.max(0) as usize);
+    let q = q.as_slice();
+    match v % NVARIANTS {
+        4 | 5 => RawFrame::request(id, notify, 1, q, 1, &beve::to_vec(&json!({ "tag": tag, "c": c })).unwrap()).to_vec(),
+        6..=9 => {
+            let mut m = Message::builder().body_typed_slice(&[tag, c]).build();
+            let body = std::mem::take(&mut m.body);
+            RawFrame::request(id, notify, 1, q, m.header.body_format, &body).to_vec()
+        }
+        _ => response_q(id, notify, tag, c, tag.max(0) as usize),
+    }
+}
+
+macro_rules! call_variant {
+    ($cl:expr, $v:expr, $c:expr, $t:expr, slices: $sl:tt, [$($aw:tt)*]) => {{
+        let path = vpath($c, $v);
+        let path = path.as_str();
+        let body = req_body($c);
+        let raw = serde_json::to_vec(&body).unwrap();
+        let t: Duration = $t;
+        let r: Result<Value, RepeError> = match $v {
+            0 => $cl.call_json(path, &body)$($aw)*,
+            1 => $cl.call_json_with_timeout(path, &body, t)$($aw)*,
+            2 => $cl.call_typed_json::<&str, Value, Value>(path, &body)$($aw)*,
+            3 => $cl.call_typed_json_with_timeout::<&str, Value, Value>(path, &body, t)$($aw)*,
+            4 => $cl.call_typed_beve::<&str, Value, Value>(path, &body)$($aw)*,
+            5 => $cl.call_typed_beve_with_timeout::<&str, Value, Value>(path, &body, t)$($aw)*,
+            6..=9 => call_variant!(@slice $sl, $cl, $v, path, $c, t, [$($aw)*]),
+            10 => $cl.call_message(path)$($aw)*.and_then(msg_to_value),
+            11 => $cl.call_message_with_timeout(path, t)$($aw)*.and_then(msg_to_value),
+            12 => $cl.call_with_formats(path, 1, Some(&raw), 2)$($aw)*.and_then(msg_to_value),
+            13 => $cl.call_with_formats_and_timeout(path, 1, Some(&raw), 2, t)$($aw)*.and_then(msg_to_value),
+            14 => $cl.registry_read(path)$($aw)*,
+            15 => $cl.registry_read_with_timeout(path, t)$($aw)*,
+            16 => $cl.registry_read_typed::<&str, Value>(path)$($aw)*,
+            17 => $cl.registry_read_typed_with_timeout::<&str, Value>(path, t)$($aw)*,
+            18 => $cl.registry_write_json(path, &body)$($aw)*,
+            _ => $cl.registry_call_json(path, &body)$($aw)*,
+        };
+        r
+    }};
+    (@slice yes, $cl:expr, $v:expr, $path:expr, $c:expr, $t:expr, [$($aw:tt)*]) => {{
+        let b = [100 + $c as i64];
+        match $v {
+            6 => $cl.call_typed_slice::<&str, i64, i64>($path, &b)$($aw)*.and_then(slice_to_value),
+            7 => $cl.call_typed_slice_with_timeout::<&str, i64, i64>($path, &b, $t)$($aw)*.and_then(slice_to_value),
+            8 => $cl.call_typed_slice_aligned::<&str, i64, i64>($path, &b)$($aw)*.and_then(slice_to_value),
+            _ => $cl.call_typed_slice_aligned_with_timeout::<&str, i64, i64>($path, &b, $t)$($aw)*.and_then(slice_to_value),
+        }
+    }};
+    (@slice no, $cl:expr, $v:expr, $path:expr, $c:expr, $t:expr, [$($aw:tt)*]) => {{
+        let _ = ($path, $t);
+        Err(RepeError::Io(std::io::Error::other("no typed-slice calls on this client")))
+    }};
+}
+
+impl Session {
+    /// Start call `c` through entry point `v` (see `variant_name`). With `timeout` the `_with_timeout`
+    /// twin is used with that duration; the twins chosen by an odd `v` get a generous one.
+    fn call_v(&mut self, h: &H, c: usize, v: usize, timeout: Option<Duration>) {
+        let mut v = variant_for(self.kind, v);
+        if timeout.is_some() && v < 18 {
+            v |= 1;
+        }
+        if timeout.is_some() && v >= 18 {
+            v = 1;
+        }
+        let t = timeout.unwrap_or(CALL_TIMEOUT);
+        let tx = self.ev_tx.clone();
+        match self.cl.clone() {
+            Cl::B(cl) => {
+                std::thread::spawn(move || {
+                    CALLER_THREAD.with(|x| x.set(Some(c)));
+                    let r = call_variant!(cl, v, c, t, slices: yes, []);
+                    let _ = tx.send(Event::Res(c, r));
+                });
+            }
+            Cl::A(cl) => {
+                let jh = h.rt.spawn(CALLER_TASK.scope(c, async move {
+                    let r = call_variant!(cl, v, c, t, slices: yes, [.await]);
+                    let _ = tx.send(Event::Res(c, r));
+                }));
+                self.handles.push((c, jh));
+            }
+            Cl::W(cl) => {
+                let jh = h.rt.spawn(CALLER_TASK.scope(c, async move {
+                    let r = call_variant!(cl, v, c, t, slices: no, [.await]);
+                    let _ = tx.send(Event::Res(c, r));
+                }));
+                self.handles.push((c, jh));
+            }
+        }
+    }
+}
+
 // ---------------------------------------------------------------------------------------------
 // family `mux`
 // ---------------------------------------------------------------------------------------------
@@ -503,12 +634,16 @@ struct MuxCase {
     kind: usize,
     n: usize,
     script: Vec<String>,
+    /// entry point of each caller (empty = all `call_json`)
+    vars: Vec<usize>,
 }
 
 fn run_mux_case(h: &H, out: &mut Out, idx: &str, case: &MuxCase) {
     let kname = KINDS[case.kind];
     let script_s = if case.script.is_empty() { "-".to_string() } else { case.script.join(",") };
-    let op_of = |ids: &str| format!("case {} {} {} {} {}", idx, case.kind, case.n, ids, script_s);
+    let vars: Vec<usize> = (0..case.n).map(|c| variant_for(case.kind, case.vars.get(c).copied().unwrap_or(0))).collect();
+    let vars_s = if vars.is_empty() { "-".to_string() } else { vars.iter().map(|x| x.to_string()).collect::<Vec<_>>().join(",") };
+    let op_of = |ids: &str| format!("case {} {} {} {} {} {}", idx, case.kind, case.n, ids, script_s, vars_s);
     out.begin(&op_of("?"));
     let fail = |out: &mut Out, sig: &str, detail: String, ids: &str| {
         out.oracle_fail(&format!("mux.{}.{}", kname, sig), &detail, &[op_of(ids)]);
@@ -526,7 +661,8 @@ fn run_mux_case(h: &H, out: &mut Out, idx: &str, case: &MuxCase) {
         _ => None,
     };
     for c in 0..case.n {
-        s.call(h, c, req_body(c), None);
+        s.call_v(h, c, vars[c], None);
+        out.count(&format!("mux.entry.{}", variant_name(vars[c])));
     }
     let frames = match s.read(case.n) {
         Ok(f) => f,
@@ -557,10 +693,11 @@ fn run_mux_case(h: &H, out: &mut Out, idx: &str, case: &MuxCase) {
     let unknown_base = ids.iter().max().copied().unwrap_or(0) + 1_000_000_000;
     let mut wire = Vec::new();
     let mut meta: Vec<(Option<usize>, bool)> = Vec::new(); // (caller whose id is used, notify)
+    let mut badver: Vec<bool> = Vec::new();
     for (pos, t) in case.script.iter().enumerate() {
         let k: usize = t[1..].parse().unwrap();
         let (id, notify, who) = match &t[..1] {
-            "r" => (ids[k], false, Some(k)),
+            "r" | "v" => (ids[k], false, Some(k)),
             "n" => (ids[k], true, Some(k)),
             "u" | "e" => (unknown_base + k as u64, false, None),
             _ => (unknown_base + k as u64, true, None),
@@ -571,13 +708,36 @@ fn run_mux_case(h: &H, out: &mut Out, idx: &str, case: &MuxCase) {
         } else if who.is_none() {
             // nobody waits for it: also vary the echoed query (long, non-ASCII, not UTF-8)
             wire.push(response_q(id, notify, pos as i64, -1, k));
-        } else {
+        } else if notify && case.kind == 2 {
+            // goes to the subscriber, which reads the tag from a JSON body
             wire.push(response(id, notify, pos as i64, who.map(|x| x as i64).unwrap_or(-1)));
+        } else {
+            wire.push(response_v(id, notify, pos as i64, who.map(|x| x as i64).unwrap_or(-1), vars[who.unwrap()]));
+        }
+        // header fields the clients must not care about, derived from the position (replay-exact):
+        // the value of a set notify byte (1, 2, 255), the reserved word, the echoed query of a response
+        {
+            let f = wire.last_mut().unwrap();
+            if notify {
+                f[11] = [1u8, 2, 255][pos % 3];
+            }
+            if pos % 2 == 1 {
+                f[12..16].copy_from_slice(&(0x0101_0101u32.wrapping_mul(pos as u32 + 1)).to_le_bytes());
+            }
+            if &t[..1] == "v" {
+                f[10] = [0u8, 2, 255][pos % 3]; // a response with a wrong protocol version: that call fails, nobody else
+            }
         }
         meta.push((who, notify));
+        badver.push(&t[..1] == "v");
         out.count(&format!("mux.frame.{}", &t[..1]));
     }
     let n_notify = meta.iter().filter(|m| m.1).count();
+    // independent expectation: every caller was registered before the first frame was sent, so it gets the
+    // first frame that carries its id (and is not diverted to the subscriber on the WebSocket client)
+    let first_for = |c: usize| -> Option<usize> {
+        meta.iter().position(|m| m.0 == Some(c) && !(case.kind == 2 && m.1))
+    };
     if case.kind == 2 {
         wire.push(response(unknown_base + 999_999, true, -1, -1)); // end marker for the subscriber
     }
@@ -608,7 +768,24 @@ fn run_mux_case(h: &H, out: &mut Out, idx: &str, case: &MuxCase) {
             }
             Some((c, Err(e))) => {
                 got[c] = "E".into();
-                fail(out, "call_failed", format!("caller {} failed: {}", c, io_kind(&e)), &ids_s);
+                let expected_bad_version = first_for(c).map(|p| badver[p]).unwrap_or(false);
+                if !(expected_bad_version && matches!(e, RepeError::VersionMismatch(_))) {
+                    fail(out, "call_failed", format!("caller {} failed: {}", c, io_kind(&e)), &ids_s);
+                }
+            }
+        }
+    }
+    for c in 0..case.n {
+        if let (Some(p), Ok(t)) = (first_for(c), got[c].parse::<usize>()) {
+            if badver[p] {
+                fail(out, "bad_version_accepted", format!("caller {} returned frame #{} although the first frame with its id (#{}) had a wrong version", c, t, p), &ids_s);
+            } else if t != p {
+                // on the TCP clients a notify-flagged frame with an in-flight id may or may not count as the
+                // response (the property is silent: there is no subscriber there): accept either reading
+                let strict = meta.iter().position(|m| m.0 == Some(c) && !m.1);
+                if Some(t) != strict {
+                    fail(out, "not_first_response", format!("caller {} returned frame #{}, the first frame carrying its id was #{}", c, t, p), &ids_s);
+                }
             }
         }
     }
@@ -675,21 +852,22 @@ fn run_batch_case(h: &H, out: &mut Out, idx: &str, case: &BatchCase) {
         }
     };
     let reqs: Vec<(String, Value)> = (0..case.n).map(|j| ("/t".to_string(), req_body(j))).collect();
+    let twin = case.n % 2 == 1; // odd sizes go through `batch_json_with_timeout`
     let (btx, brx) = smpsc::channel::<Vec<Result<Value, RepeError>>>();
     match s.cl.clone() {
         Cl::B(cl) => {
             std::thread::spawn(move || {
-                let _ = btx.send(cl.batch_json(reqs));
+                let _ = btx.send(if twin { cl.batch_json_with_timeout(reqs, CALL_TIMEOUT) } else { cl.batch_json(reqs) });
             });
         }
         Cl::A(cl) => {
             h.rt.spawn(async move {
-                let _ = btx.send(cl.batch_json(reqs).await);
+                let _ = btx.send(if twin { cl.batch_json_with_timeout(reqs, CALL_TIMEOUT).await } else { cl.batch_json(reqs).await });
             });
         }
         Cl::W(cl) => {
             h.rt.spawn(async move {
-                let _ = btx.send(cl.batch_json(reqs).await);
+                let _ = btx.send(if twin { cl.batch_json_with_timeout(reqs, CALL_TIMEOUT).await } else { cl.batch_json(reqs).await });
             });
         }
     }
@@ -812,7 +990,13 @@ fn run_seq_case(h: &H, out: &mut Out, idx: &str, kind: usize, t: usize, k: usize
                     for j in 0..k {
                         // a notify now and then: it must consume an id of its own
                         if j % 3 == 1 {
-                            let _ = cl.notify_json("/n", &json!({"n": j}));
+                            let nb = json!({"n": j});
+                            let _ = match j % 4 {
+                                0 => cl.notify_json("/n", &nb),
+                                1 => cl.notify_typed_json("/n", &nb),
+                                2 => cl.notify_typed_beve("/n", &nb),
+                                _ => cl.notify_with_formats("/n", 1, Some(b"{}"), 2),
+                            };
                         }
                         if let Some(e) = check(j, cl.call_json("/t", &body(j))) {
                             let _ = dtx.send((w, j, e));
@@ -826,7 +1010,13 @@ fn run_seq_case(h: &H, out: &mut Out, idx: &str, kind: usize, t: usize, k: usize
                 h.rt.spawn(async move {
                     for j in 0..k {
                         if j % 3 == 1 {
-                            let _ = cl.notify_json("/n", &json!({"n": j})).await;
+                            let nb = json!({"n": j});
+                            let _ = match j % 4 {
+                                0 => cl.notify_json("/n", &nb).await,
+                                1 => cl.notify_typed_json("/n", &nb).await,
+                                2 => cl.notify_typed_beve("/n", &nb).await,
+                                _ => cl.notify_with_formats("/n", 1, Some(b"{}"), 2).await,
+                            };
                         }
                         if let Some(e) = check(j, cl.call_json("/t", &body(j)).await) {
                             let _ = dtx.send((w, j, e));
@@ -840,7 +1030,13 @@ fn run_seq_case(h: &H, out: &mut Out, idx: &str, kind: usize, t: usize, k: usize
                 h.rt.spawn(async move {
                     for j in 0..k {
                         if j % 3 == 1 {
-                            let _ = cl.notify_json("/n", &json!({"n": j})).await;
+                            let nb = json!({"n": j});
+                            let _ = match j % 4 {
+                                0 => cl.notify_json("/n", &nb).await,
+                                1 => cl.notify_typed_json("/n", &nb).await,
+                                2 => cl.notify_typed_beve("/n", &nb).await,
+                                _ => cl.notify_with_formats("/n", 1, Some(b"{}"), 2).await,
+                            };
                         }
                         if let Some(e) = check(j, cl.call_json("/t", &body(j)).await) {
                             let _ = dtx.send((w, j, e));
@@ -854,8 +1050,11 @@ fn run_seq_case(h: &H, out: &mut Out, idx: &str, kind: usize, t: usize, k: usize
     }
     let mut done = 0usize;
     let mut okc = 0usize;
+    // a worker's whole run is awaited: allow for the 40 ms Nagle / delayed-ACK stall a notify followed by a
+    // call costs on the WebSocket client (it connects with Nagle on), on top of the watchdog
+    let allowance = call_watchdog() + Duration::from_millis(60 * k as u64);
     while done < t {
-        match drx.recv_timeout(call_watchdog()) {
+        match drx.recv_timeout(allowance) {
             Ok((_, j, e)) => {
                 done += 1;
                 if e.is_empty() {
@@ -1172,6 +1371,279 @@ fn run_fwd_residue_case(h: &H, out: &mut Out, idx: &str) {
     s.send(Cmd::Close);
 }
 
+
+// ---------------------------------------------------------------------------------------------
+// `life`: one client instance through a long mixed sequence (state that must not survive a call)
+// ---------------------------------------------------------------------------------------------
+/// A user type whose `Serialize` fails (0), panics with a String (1), a &'static str (2) or a non-string payload (3).
+struct BadSer(u8);
+impl serde::Serialize for BadSer {
+    fn serialize<S: serde::Serializer>(&self, _s: S) -> Result<S::Ok, S::Error> {
+        match self.0 {
+            0 => Err(serde::ser::Error::custom("this value refuses to be serialized")),
+            1 => panic!("{}", String::from("serializer panicked (String)")),
+            2 => panic!("serializer panicked (&'static str)"),
+            _ => std::panic::panic_any(42u32),
+        }
+    }
+}
+/// A user type whose `Deserialize` always fails.
+#[derive(Debug)]
+struct BadDe;
+impl<'de> serde::Deserialize<'de> for BadDe {
+    fn deserialize<D: serde::Deserializer<'de>>(_d: D) -> Result<Self, D::Error> {
+        Err(serde::de::Error::custom("this type refuses every value"))
+    }
+}
+
+/// Answer requests of caller `c` as `how` until its result arrives.
+/// how: 0 = matching response, 1 = error response (ec 7) under its id, 2 = no answer.
+fn serve_until(s: &mut Session, c: usize, how: u8, wd: Duration) -> Option<Result<Value, RepeError>> {
+    if let Some(p) = s.stash.iter().position(|x| x.0 == c) {
+        return Some(s.stash.remove(p).1);
+    }
+    let deadline = Instant::now() + wd;
+    loop {
+        let pending: Vec<RawFrame> = std::mem::take(&mut s.req_stash);
+        for f in pending {
+            if caller_of(&f) == Some(c) && f.h.notify == 0 {
+                match how {
+                    0 => s.send(Cmd::Send(vec![response_v(f.h.id, false, c as i64, c as i64, variant_of(&f))])),
+                    1 => s.send(Cmd::Send(vec![error_response(f.h.id, 7)])),
+                    _ => {}
+                }
+            } else {
+                s.req_stash.push(f);
+            }
+        }
+        match s.ev.recv_timeout(deadline.saturating_duration_since(Instant::now()).min(Duration::from_millis(50))) {
+            Ok(Event::Req(f)) => s.req_stash.push(f),
+            Ok(Event::Res(x, r)) if x == c => return Some(r),
+            Ok(Event::Res(x, r)) => s.stash.push((x, r)),
+            Ok(e) => s.srv_stash.push_back(e),
+            Err(_) if Instant::now() >= deadline => return None,
+            Err(_) => {}
+        }
+    }
+}
+
+fn run_life_case(h: &H, out: &mut Out, idx: &str, kind: usize, seed: u64) {
+    let kname = KINDS[kind];
+    let op = format!("life {} {} {}", idx, kind, seed);
+    out.begin(&op);
+    let ops = [op.clone()];
+    let Ok(mut s) = h.open(kind) else { return };
+    s.send(Cmd::AutoRead);
+    let _ = s.srv_done();
+    let mut r = Rng::new(seed);
+    let mut verdict = "ok".to_string();
+    let mut next_c = 0usize;
+    let mut fresh = |n: &mut usize| { *n += 1; *n };
+    // after every step an ordinary call must be served as on a fresh client
+    macro_rules! check_served {
+        ($step:expr) => {{
+            let c = fresh(&mut next_c);
+            let v = r.below(NVARIANTS as u64) as usize;
+            s.call_v(h, c, v, None);
+            let got = serve_until(&mut s, c, 0, call_watchdog());
+            if own(&got, c as i64) != "own" {
+                out.oracle_fail(&format!("mux.{}.life.{}", kname, $step), &format!("after step `{}` a {} call on the same client returned {}", $step, variant_name(variant_for(kind, v)), own(&got, c as i64)), &ops);
+                if own(&got, c as i64) == "HANG" { saw_hang(); }
+                verdict = "bad".into();
+            }
+        }};
+    }
+    check_served!("connect");
+    let mut steps: Vec<&str> = vec!["zero_timeout", "short_timeout", "error_response", "ser_err", "ser_panic", "de_err", "notifies", "batch", "cancel", "forward", "resubscribe", "oversize"];
+    r.shuffle(&mut steps);
+    for step in steps {
+        match step {
+            "zero_timeout" | "short_timeout" => {
+                let c = fresh(&mut next_c);
+                let t = if step == "zero_timeout" { Duration::ZERO } else { Duration::from_millis(20) };
+                s.call_v(h, c, r.below(NVARIANTS as u64) as usize, Some(t));
+                let got = serve_until(&mut s, c, 2, call_watchdog());
+                if !matches!(&got, Some(Err(e)) if cls(e) == "Timeout") {
+                    out.oracle_fail(&format!("mux.{}.life.{}", kname, step), &format!("an unanswered call with a {:?} timeout returned {}", t, own(&got, c as i64)), &ops);
+                    verdict = "bad".into();
+                }
+                // its late answer
+                let late: Vec<RawFrame> = std::mem::take(&mut s.req_stash);
+                for f in late {
+                    if caller_of(&f) == Some(c) {
+                        s.send(Cmd::Send(vec![response_v(f.h.id, false, c as i64, c as i64, variant_of(&f))]));
+                    } else {
+                        s.req_stash.push(f);
+                    }
+                }
+            }
+            "error_response" => {
+                let c = fresh(&mut next_c);
+                s.call_v(h, c, r.below(NVARIANTS as u64) as usize, None);
+                let got = serve_until(&mut s, c, 1, call_watchdog());
+                if !matches!(&got, Some(Err(RepeError::ServerError { .. }))) {
+                    out.oracle_fail(&format!("mux.{}.life.{}", kname, step), &format!("a call answered with an error frame returned {}", own(&got, c as i64)), &ops);
+                    verdict = "bad".into();
+                }
+            }
+            "ser_err" | "ser_panic" => {
+                // a user `Serialize` that fails / panics: nothing is sent, nothing stays behind
+                for which in if step == "ser_err" { vec![0u8] } else { vec![1u8, 2, 3] } {
+                    let outcome = match s.cl.clone() {
+                        Cl::B(cl) => std::thread::spawn(move || cl.call_json("/t", &BadSer(which)).map(|_| ())).join().map_err(|_| ()),
+                        Cl::A(cl) => h.rt.block_on(async { tokio::spawn(async move { cl.call_json("/t", &BadSer(which)).await.map(|_| ()) }).await }).map_err(|_| ()),
+                        Cl::W(cl) => h.rt.block_on(async { tokio::spawn(async move { cl.call_json("/t", &BadSer(which)).await.map(|_| ()) }).await }).map_err(|_| ()),
+                    };
+                    out.count(&format!("mux.{}.life.badser.{}", kname, match &outcome { Ok(Ok(())) => "sent", Ok(Err(_)) => "err", Err(()) => "panicked" }));
+                    if matches!(outcome, Ok(Ok(()))) {
+                        out.oracle_fail(&format!("mux.{}.life.{}", kname, step), "a call whose body cannot be serialized reported success", &ops);
+                        verdict = "bad".into();
+                    }
+                }
+            }
+            "de_err" => {
+                let c = fresh(&mut next_c);
+                let tx = s.ev_tx.clone();
+                let path = vpath(c, 2);
+                let body = req_body(c);
+                match s.cl.clone() {
+                    Cl::B(cl) => { std::thread::spawn(move || { let r = cl.call_typed_json::<&str, Value, BadDe>(&path, &body).map(|_| Value::Null); let _ = tx.send(Event::Res(c, r)); }); }
+                    Cl::A(cl) => { h.rt.spawn(async move { let r = cl.call_typed_json::<&str, Value, BadDe>(&path, &body).await.map(|_| Value::Null); let _ = tx.send(Event::Res(c, r)); }); }
+                    Cl::W(cl) => { h.rt.spawn(async move { let r = cl.call_typed_json::<&str, Value, BadDe>(&path, &body).await.map(|_| Value::Null); let _ = tx.send(Event::Res(c, r)); }); }
+                }
+                let got = serve_until(&mut s, c, 0, call_watchdog());
+                if !matches!(&got, Some(Err(_))) {
+                    out.oracle_fail(&format!("mux.{}.life.{}", kname, step), &format!("a response that the caller's type cannot decode gave {}", own(&got, c as i64)), &ops);
+                    verdict = "bad".into();
+                }
+            }
+            "notifies" => {
+                let nb = json!({"n": 1});
+                match s.cl.clone() {
+                    Cl::B(cl) => { let _ = cl.notify_json("/n", &nb); let _ = cl.notify_typed_json("/n", &nb); let _ = cl.notify_typed_beve("/n", &nb); let _ = cl.notify_with_formats("/n", 1, None, 0); }
+                    Cl::A(cl) => h.rt.block_on(async { let _ = cl.notify_json("/n", &nb).await; let _ = cl.notify_typed_json("/n", &nb).await; let _ = cl.notify_typed_beve("/n", &nb).await; let _ = cl.notify_with_formats("/n", 1, None, 0).await; }),
+                    Cl::W(cl) => h.rt.block_on(async { let _ = cl.notify_json("/n", &nb).await; let _ = cl.notify_typed_json("/n", &nb).await; let _ = cl.notify_typed_beve("/n", &nb).await; let _ = cl.notify_with_formats("/n", 1, None, 0).await; }),
+                }
+            }
+            "batch" => {
+                let base = next_c + 1;
+                next_c += 3;
+                let reqs: Vec<(String, Value)> = (0..3).map(|j| (vpath(base + j, 0), req_body(base + j))).collect();
+                let (btx, brx) = smpsc::channel::<Vec<Result<Value, RepeError>>>();
+                match s.cl.clone() {
+                    Cl::B(cl) => { std::thread::spawn(move || { let _ = btx.send(cl.batch_json(reqs)); }); }
+                    Cl::A(cl) => { h.rt.spawn(async move { let _ = btx.send(cl.batch_json(reqs).await); }); }
+                    Cl::W(cl) => { h.rt.spawn(async move { let _ = btx.send(cl.batch_json_with_timeout(reqs, CALL_TIMEOUT).await); }); }
+                }
+                let deadline = Instant::now() + call_watchdog();
+                let mut res = None;
+                while Instant::now() < deadline && res.is_none() {
+                    if let Ok(x) = brx.try_recv() { res = Some(x); break; }
+                    match s.ev.recv_timeout(Duration::from_millis(20)) {
+                        Ok(Event::Req(f)) if f.h.notify == 0 => { let c = caller_of(&f).unwrap_or(0); s.send(Cmd::Send(vec![response_v(f.h.id, false, c as i64, c as i64, 0)])); }
+                        Ok(Event::Res(x, r)) => s.stash.push((x, r)),
+                        _ => {}
+                    }
+                }
+                let ok = matches!(&res, Some(v) if v.len() == 3 && v.iter().enumerate().all(|(j, r)| matches!(r, Ok(val) if tag_of(val) == Some((base + j) as i64))));
+                if !ok {
+                    out.oracle_fail(&format!("mux.{}.life.batch", kname), "a batch of three on a used client was not answered slot by slot", &ops);
+                    verdict = "bad".into();
+                }
+            }
+            "cancel" if kind != 0 => {
+                let c = fresh(&mut next_c);
+                s.call_v(h, c, r.below(NVARIANTS as u64) as usize, None);
+                // wait until the request is at the server, abort, then its late answer
+                let deadline = Instant::now() + call_watchdog();
+                let mut seen = None;
+                while Instant::now() < deadline && seen.is_none() {
+                    match s.ev.recv_timeout(Duration::from_millis(20)) {
+                        Ok(Event::Req(f)) if caller_of(&f) == Some(c) => seen = Some(f),
+                        Ok(Event::Req(f)) => s.req_stash.push(f),
+                        Ok(Event::Res(x, r)) => s.stash.push((x, r)),
+                        _ => {}
+                    }
+                }
+                let _ = s.abort(h, c);
+                if let Some(f) = seen {
+                    s.send(Cmd::Send(vec![response_v(f.h.id, false, c as i64, c as i64, variant_of(&f))]));
+                }
+            }
+            "forward" if kind == 1 => {
+                let c = fresh(&mut next_c);
+                s.fwd(h, c, 1_000_000 + c as u64, None);
+                let got = match s.req_or_res(c, 1_000_000 + c as u64) {
+                    Ok(()) => { s.send(Cmd::Send(vec![response(1_000_000 + c as u64, false, c as i64, c as i64)])); s.res_of(c, call_watchdog()) }
+                    Err(r) => r,
+                };
+                if own(&got, c as i64) != "own" {
+                    out.oracle_fail(&format!("mux.{}.life.forward", kname), &format!("forward_message on a used client returned {}", own(&got, c as i64)), &ops);
+                    verdict = "bad".into();
+                }
+            }
+            "resubscribe" if kind == 2 => {
+                if let Cl::W(w) = &s.cl {
+                    // the first receiver stays alive the whole time: only the explicit unsubscribe may free the slot
+                    let mut rx1 = w.subscribe_notifies().ok();
+                    let second = w.subscribe_notifies().is_err(); // a live subscription is not replaced silently
+                    s.send(Cmd::Send(vec![response(77, true, 501, -1)]));
+                    let got1 = match rx1.as_mut() {
+                        Some(rx) => h.rt.block_on(async { tokio::time::timeout(call_watchdog(), rx.recv()).await.ok().flatten() }),
+                        None => None,
+                    };
+                    w.unsubscribe_notifies();
+                    s.send(Cmd::Send(vec![response(77, true, 502, -1)])); // nobody listens: dropped
+                    let rx2 = w.subscribe_notifies();
+                    s.send(Cmd::Send(vec![response(77, true, 503, -1)]));
+                    let got2 = rx2.ok().and_then(|mut rx| h.rt.block_on(async {
+                        // the notifications now go to the new subscriber (502 may or may not have been dropped before it attached)
+                        tokio::time::timeout(call_watchdog(), rx.recv()).await.ok().flatten()
+                    }));
+                    drop(rx1);
+                    let t1 = got1.and_then(|m| serde_json::from_slice::<Value>(&m.body).ok()).and_then(|v| tag_of(&v));
+                    let t2 = got2.and_then(|m| serde_json::from_slice::<Value>(&m.body).ok()).and_then(|v| tag_of(&v));
+                    if !second || t1 != Some(501) || !(t2 == Some(503) || t2 == Some(502)) {
+                        out.oracle_fail("mux.ws.life.resubscribe", &format!("subscribe / unsubscribe / subscribe with the first receiver still alive: second live subscribe refused = {}, first subscriber got {:?}, the subscriber registered after unsubscribe got {:?}", second, t1, t2), &ops);
+                        verdict = "bad".into();
+                    }
+                    w.unsubscribe_notifies();
+                }
+            }
+            "oversize" if kind == 2 => {
+                // exactly at the assumed peer frame limit is sent, one byte more is refused; nothing sticks
+                if let Cl::W(w) = s.cl.clone() {
+                    let limit = w.limits().assumed_peer_frame_limit.unwrap_or(16 << 20);
+                    let c = fresh(&mut next_c);
+                    let path = vpath(c, 12);
+                    let overhead = 48 + path.len();
+                    for (extra, expect_refused) in [(0usize, false), (1, true)] {
+                        let body = vec![b' '; limit - overhead + extra];
+                        let p2 = path.clone();
+                        let w2 = w.clone();
+                        let tx = s.ev_tx.clone();
+                        h.rt.spawn(async move {
+                            let r = w2.call_with_formats(&p2, 1, Some(&body), 0).await.and_then(msg_to_value);
+                            let _ = tx.send(Event::Res(c, r));
+                        });
+                        let got = serve_until(&mut s, c, 0, call_watchdog());
+                        let refused = matches!(&got, Some(Err(RepeError::MessageTooLarge { .. })));
+                        if refused != expect_refused || (!expect_refused && own(&got, c as i64) != "own") {
+                            out.oracle_fail("mux.ws.life.oversize", &format!("request of limit{:+} bytes: refused = {}, result {}", extra as i64, refused, own(&got, c as i64)), &ops);
+                            verdict = "bad".into();
+                        }
+                    }
+                }
+            }
+            _ => continue,
+        }
+        out.count(&format!("mux.{}.life.step.{}", kname, step));
+        check_served!(step);
+    }
+    out.case(&op, &format!("{} {}", idx, verdict), true);
+    s.send(Cmd::Close);
+}
+
 fn permutations(n: usize) -> Vec<Vec<usize>> {
     fn go(cur: &mut Vec<usize>, used: &mut Vec<bool>, n: usize, out: &mut Vec<Vec<usize>>) {
         if cur.len() == n {
@@ -1204,14 +1676,15 @@ fn random_script(r: &mut Rng, n: usize) -> Vec<String> {
     };
     for _ in 0..extras {
         let pos = r.below(script.len() as u64 + 1) as usize;
-        let t = match r.below(9) {
+        let t = match r.below(10) {
+            9 => format!("v{}", r.below(n.max(1) as u64)),
             8 => format!("e{}", r.below(50)),
             0 | 1 => format!("u{}", r.below(50)),
             2 => format!("x{}", r.below(50)),
             3 | 4 => format!("r{}", r.below(n.max(1) as u64)), // duplicate (or early second copy)
             _ => format!("n{}", r.below(n.max(1) as u64)),
         };
-        if n == 0 && (t.starts_with('r') || t.starts_with('n')) {
+        if n == 0 && (t.starts_with('r') || t.starts_with('n') || t.starts_with('v')) {
             continue;
         }
         script.insert(pos, t);
@@ -1238,16 +1711,18 @@ fn gen_mux(args: &Args, r: &mut Rng) -> (Vec<MuxCase>, Vec<BatchCase>) {
                     };
                     script.insert(pos, t);
                 }
-                cases.push(MuxCase { kind, n, script });
+                let vars = (0..n).map(|_| r.below(NVARIANTS as u64) as usize).collect();
+                cases.push(MuxCase { kind, n, script, vars });
             }
         }
         // every single insertion position of each adversarial kind for N = 2 (all orders)
         for p in permutations(2) {
-            for t in ["u0", "u1", "u2", "u3", "e0", "x0", "x1", "n0", "n1", "r0", "r1"] {
+            for t in ["u0", "u1", "u2", "u3", "e0", "x0", "x1", "n0", "n1", "r0", "r1", "v0", "v1"] {
                 for pos in 0..=2 {
                     let mut script: Vec<String> = p.iter().map(|c| format!("r{c}")).collect();
                     script.insert(pos, t.to_string());
-                    cases.push(MuxCase { kind, n: 2, script });
+                    let vars = vec![r.below(NVARIANTS as u64) as usize, r.below(NVARIANTS as u64) as usize];
+                    cases.push(MuxCase { kind, n: 2, script, vars });
                 }
             }
         }
@@ -1257,9 +1732,10 @@ fn gen_mux(args: &Args, r: &mut Rng) -> (Vec<MuxCase>, Vec<BatchCase>) {
             if n % 2 == 0 {
                 script.push("u0".into()); // odd script length = coalesced write (TCP clients)
             }
-            cases.push(MuxCase { kind, n, script: script.clone() });
+            let vars: Vec<usize> = (0..n).map(|c| c % NVARIANTS).collect();
+            cases.push(MuxCase { kind, n, script: script.clone(), vars: vars.clone() });
             script.reverse();
-            cases.push(MuxCase { kind, n, script });
+            cases.push(MuxCase { kind, n, script, vars });
         }
         let nrand = if args.thorough() { 1000 } else { 30 };
         for _ in 0..nrand {
@@ -1269,7 +1745,8 @@ fn gen_mux(args: &Args, r: &mut Rng) -> (Vec<MuxCase>, Vec<BatchCase>) {
                 3 => r.range(17, 40),
                 _ => r.range(41, 64),
             } as usize;
-            cases.push(MuxCase { kind, n, script: random_script(r, n) });
+            let vars = (0..n).map(|_| r.below(NVARIANTS as u64) as usize).collect();
+            cases.push(MuxCase { kind, n, script: random_script(r, n), vars });
         }
     }
     let mut batches = Vec::new();
@@ -1349,7 +1826,12 @@ fn run_dead_case(h: &H, out: &mut Out, idx: &str, case: &DeadCase) {
     };
     let tmo = if case.tmo { Some(CALL_TIMEOUT) } else { None };
     for c in 0..case.n {
-        s.call(h, c, req_body(c), tmo);
+        if case.when == "before" {
+            s.call(h, c, req_body(c), tmo);
+        } else {
+            // entry point derived from the case (replay-exact)
+            s.call_v(h, c, (case.n * 7 + c * 3 + case.cut + case.answered) % NVARIANTS, tmo);
+        }
     }
     let mut outcomes: Vec<String> = vec!["HANG".into(); case.n];
     let mut ids: Vec<u64> = vec![0; case.n];
@@ -1369,7 +1851,7 @@ fn run_dead_case(h: &H, out: &mut Out, idx: &str, case: &DeadCase) {
                         }
                     }
                 }
-                let answers: Vec<Vec<u8>> = (0..case.answered).map(|c| response(ids[c], false, c as i64, c as i64)).collect();
+                let answers: Vec<Vec<u8>> = (0..case.answered).map(|c| response_v(ids[c], false, c as i64, c as i64, variant_for(case.kind, (case.n * 7 + c * 3 + case.cut + case.answered) % NVARIANTS))).collect();
                 if !answers.is_empty() {
                     s.send(Cmd::Send(answers));
                     if let Err(e) = s.srv_done() {
@@ -1560,9 +2042,19 @@ fn run_tmo_case(h: &H, out: &mut Out, idx: &str, kind: usize, mode: &str, jitter
     out.begin(&op);
     let ops = [format!("{} jitter_ms={}", op, jitter_ms)];
     let Ok(mut s) = h.open(kind) else { return };
-    let t_short = Duration::from_millis(if mode == "race" { 60 } else { 150 });
+    // `late.<v>` / `zero.<v>` / `early.<v>`: through the `_with_timeout` twin of entry point <v>
+    let (mode, via) = match mode.split_once('.') {
+        Some((m, v)) => (m, v.parse::<usize>().ok()),
+        None => (mode, None),
+    };
+    let zero = mode == "zero";
+    let mode = if zero { "late" } else { mode };
+    let t_short = if zero { Duration::ZERO } else { Duration::from_millis(if mode == "race" { 60 } else if via.is_some() { 40 } else { 150 }) };
     let t0 = Instant::now();
-    s.call(h, 0, req_body(0), Some(if mode == "early" { CALL_TIMEOUT } else { t_short }));
+    match via {
+        Some(v) => s.call_v(h, 0, v, Some(if mode == "early" { CALL_TIMEOUT } else { t_short })),
+        None => s.call(h, 0, req_body(0), Some(if mode == "early" { CALL_TIMEOUT } else { t_short })),
+    }
     let id0 = match s.read(1) {
         Ok(f) => f[0].h.id,
         Err(e) => {
@@ -1579,7 +2071,7 @@ fn run_tmo_case(h: &H, out: &mut Out, idx: &str, kind: usize, mode: &str, jitter
             let _ = s.srv_done();
         }
         "early" => {
-            s.send(Cmd::Send(vec![response(id0, false, 0, 0)]));
+            s.send(Cmd::Send(vec![response_v(id0, false, 0, 0, via.map(|v| variant_for(kind, v)).unwrap_or(0))]));
             let _ = s.srv_done();
         }
         _ => {
@@ -2653,10 +3145,12 @@ fn main() {
             match w.first().copied() {
                 Some("case") if w.len() >= 6 => {
                     let script = if w[5] == "-" { vec![] } else { w[5].split(',').map(|s| s.to_string()).collect() };
-                    run_mux_case(&h, &mut out, &idx, &MuxCase { kind: w[2].parse().unwrap(), n: w[3].parse().unwrap(), script });
+                    let vars = w.get(6).filter(|x| **x != "-").map(|x| x.split(',').filter_map(|y| y.parse().ok()).collect()).unwrap_or_default();
+                    run_mux_case(&h, &mut out, &idx, &MuxCase { kind: w[2].parse().unwrap(), n: w[3].parse().unwrap(), script, vars });
                 }
                 Some("seq") if w.len() >= 5 => run_seq_case(&h, &mut out, &idx, w[2].parse().unwrap(), w[3].parse().unwrap(), w[4].parse().unwrap(), 0),
                 Some("seqbig") if w.len() >= 6 => run_seq_case(&h, &mut out, &idx, w[2].parse().unwrap(), w[3].parse().unwrap(), w[4].parse().unwrap(), w[5].parse().unwrap()),
+                Some("life") if w.len() >= 4 => run_life_case(&h, &mut out, &idx, w[2].parse().unwrap(), w[3].parse().unwrap()),
                 Some("fwd") if w.len() >= 4 => run_fwd_case(&h, &mut out, &idx, w[3]),
                 Some("batch") if w.len() >= 6 => {
                     run_batch_case(&h, &mut out, &idx, &BatchCase { kind: w[2].parse().unwrap(), n: w[3].parse().unwrap(), w: w[4].parse().unwrap(), order: if w[5] == "rev" { vec![usize::MAX] } else { w[5].split(',').filter_map(|x| x.parse().ok()).collect() } });
@@ -2729,6 +3223,12 @@ fn main() {
             run_seq_case(&h, &mut out, &format!("q{q}"), 2, t, k, nbig);
             q += 1;
         }
+        for kind in 0..3 {
+            for _ in 0..(if args.thorough() { 12 } else { 2 }) {
+                run_life_case(&h, &mut out, &format!("l{q}"), kind, rng.next() % 1_000_000);
+                q += 1;
+            }
+        }
         for mode in ["ids", "dup", "reuse"] {
             run_fwd_case(&h, &mut out, &format!("f{q}"), mode);
             q += 1;
@@ -2744,6 +3244,17 @@ fn main() {
             for mode in ["late", "early"] {
                 run_tmo_case(&h, &mut out, &format!("t{t}"), kind, mode, 0);
                 t += 1;
+            }
+            // every `_with_timeout` twin: an unanswered call times out (also with a zero duration), an
+            // answered one returns its answer
+            for v in (1..18).step_by(2) {
+                if kind == 2 && (6..10).contains(&v) {
+                    continue;
+                }
+                for m in [["late", "zero"][(v / 2 + kind) % 2], "early"] {
+                    run_tmo_case(&h, &mut out, &format!("t{t}"), kind, &format!("{}.{}", m, v), 0);
+                    t += 1;
+                }
             }
             let races = if args.thorough() { 120 } else { 8 };
             for _ in 0..races {
